@@ -11,6 +11,7 @@ from __future__ import annotations
 
 import contextlib
 import operator
+import os
 import pickle
 
 from symx import core
@@ -118,7 +119,13 @@ FUNCS = {"f": f, "g": g, "comm": comm}
 #                ("rawlist"|"rawtuple", (elem...))      raw Python containers of literals (Task arguments / DataNode values)
 
 
-class Lit:
+class Gram:
+    def slices(self):
+        """sub-grammars that partition this one"""
+        return [self]
+
+
+class Lit(Gram):
     def __init__(self, lmax):
         self.lmax = lmax
 
@@ -129,7 +136,7 @@ class Lit:
         return self.lmax + 1
 
 
-class K:
+class K(Gram):
     """a fixed description"""
 
     def __init__(self, desc):
@@ -150,7 +157,7 @@ def Str(s):
     return K(("str", s))
 
 
-class Alt:
+class Alt(Gram):
     def __init__(self, *opts):
         self.opts = opts
 
@@ -161,8 +168,11 @@ class Alt:
     def weight(self):
         return sum(o.weight() for o in self.opts)
 
+    def slices(self):
+        return [s_ for o in self.opts for s_ in o.slices()]
 
-class Seq:
+
+class Seq(Gram):
     """kind(elem, ..., elem) with n in ns elements"""
 
     def __init__(self, kinds, elem, ns):
@@ -176,8 +186,11 @@ class Seq:
     def weight(self):
         return len(self.kinds) * sum(self.elem.weight() ** n for n in self.ns)
 
+    def slices(self):
+        return [Seq((k,), self.elem, (n,)) for k in self.kinds for n in self.ns]
 
-class DictG:
+
+class DictG(Gram):
     def __init__(self, key, val, ns):
         self.key, self.val, self.ns = key, val, tuple(ns)
 
@@ -192,8 +205,11 @@ class DictG:
     def weight(self):
         return sum((self.key.weight() * self.val.weight()) ** n for n in self.ns)
 
+    def slices(self):
+        return [DictG(self.key, self.val, (n,)) for n in self.ns]
 
-class TaskG:
+
+class TaskG(Gram):
     """Task(key, func, *args, **kwargs): funcs names, positional args (n in ns) from `arg`, keyword sets `kwsets` (tuples of names in
     insertion order) with values from `kwval`"""
 
@@ -213,8 +229,11 @@ class TaskG:
         wk = sum(self.kwval.weight() ** len(s) for s in self.kwsets) if self.kwval is not None else 1
         return len(self.funcs) * wa * wk
 
+    def slices(self):
+        return [TaskG((fn,), self.arg, (n,), (kw,), self.kwval) for fn in self.funcs for n in self.ns for kw in self.kwsets]
 
-class DataG:
+
+class DataG(Gram):
     def __init__(self, keys, val):
         self.keys, self.val = tuple(keys), val
 
@@ -225,7 +244,26 @@ class DataG:
         return len(self.keys) * self.val.weight()
 
 
-class Raw:
+class Wrap(Gram):
+    """one inner node inside Task f / Task g (single positional argument) or inside a List / Tuple"""
+
+    def __init__(self, outer, inner):
+        self.outer, self.inner = outer, inner
+
+    def gen(self, e, p):
+        i = self.inner.gen(e, p + "in_")
+        if self.outer in ("List", "Tuple"):
+            return (self.outer, (i,))
+        return ("Task", self.outer, (i,), ())
+
+    def weight(self):
+        return self.inner.weight()
+
+    def slices(self):
+        return [Wrap(self.outer, s_) for s_ in self.inner.slices()]
+
+
+class Raw(Gram):
     def __init__(self, kind, elem, n):
         self.kind, self.elem, self.n = kind, elem, n
 
@@ -361,16 +399,16 @@ def _hash_eq(a, b):
 DEPKEYS = ("x", "y", "z")
 
 
-def mk(name, gram_a, gram_b, vmax, e2e_every=9):
+def mk(name, gram_a, gram_b, vmax, depkeys, e2e_every=9):
     """a from gram_a, b from gram_b (the same object for the symmetric families)"""
 
     def setup(e):
         da = gram_a.gen(e, "a_")
         db = gram_b.gen(e, "b_")
         if set_holds_ref(da) or set_holds_ref(db):
-            vals = {k: e.int("v_" + k, 0, vmax) for k in DEPKEYS}
+            vals = {k: e.int("v_" + k, 0, vmax) for k in depkeys}
         else:
-            vals = {k: e.int("v_" + k) for k in DEPKEYS}
+            vals = {k: e.int("v_" + k) for k in depkeys}
         return da, db, vals
 
     def run(e, da, db, vals):
@@ -450,80 +488,99 @@ def _nestings():
 
 
 def families(tier):
+    """[(name, grammar of a, grammar of b)]; symmetric families use the same grammar on both sides"""
     q = tier == "quick"
     lmax = 1 if q else 2
     vmax = 1 if q else 2
     lit = Lit(lmax)
+    lit0 = lit if not q else Lit(0)              # quick: a literal that is always 0 where a symbolic one is unaffordable
     refs = [Ref("x"), Ref("y")] + ([] if q else [Ref("z")])
-    atom = Alt(lit, *refs)                      # literal or reference
+    atom = Alt(lit, *refs)                      # symbolic literal or reference
+    atom0 = Alt(lit0, *refs)
     rr = Alt(*refs)
+    x, y = ("ref", "x"), ("ref", "y")
+    k1, k2 = ("str", "k1"), ("str", "k2")
     out = []
 
     # List / Tuple / Set of 0..2 atoms
     seq = Seq(("List", "Tuple", "Set"), atom, (0, 1, 2))
     out.append(("seq", seq, seq))
-    # Dict of 1..2 pairs, string keys (repeated keys allowed), atom values
-    dct = DictG(Alt(Str("k1"), Str("k2")), atom, (1, 2))
+    # Dict, string keys (repeated keys allowed): one pair with atom values, two pairs
+    dct = Alt(DictG(Alt(Str("k1"), Str("k2")), atom, (1,)), DictG(Alt(Str("k1"), Str("k2")), atom0, (2,)))
     out.append(("dict", dct, dct))
-    # Dict with literal / string keys and literal / string / reference values: key <-> value exchange
-    dkv = DictG(Alt(Str("k1"), lit), Alt(Str("k1"), lit, Ref("x")), (1, 2) if not q else (1,))
-    dkv2 = Alt(dkv, DictG(Alt(Str("k1"), lit), Alt(lit, Ref("x")), (2,))) if q else dkv
-    out.append(("dict-keys", dkv2, dkv2))
-    # Dict with one pair against sequences of two elements (flat argument list looks the same)
+    # Dict with literal / string keys: key <-> value exchange, pairing of literal keys with values
+    dkv = Alt(DictG(Alt(Str("k1"), lit), Alt(Str("k1"), lit, Ref("x")), (1,)), DictG(lit, Alt(lit, Ref("x")), (2,)))
+    out.append(("dict-keys", dkv, dkv))
+    # Dict with one pair against sequences of two elements (the flat argument lists coincide)
     d1 = DictG(Alt(Str("k1"), lit), atom, (1,))
     s2 = Seq(("List", "Tuple", "Set"), Alt(Str("k1"), lit, *refs), (2,))
     both = Alt(d1, s2)
     out.append(("dict-vs-seq", d1, s2) if q else ("dict-vs-seq", both, both))
-    # Task: function x positional argument lists
-    targs = TaskG(("f", "g", "comm"), atom, (0, 1, 2))
+    # Task: function x positional argument lists; the commutative function against a tuple builder
+    targs = TaskG(("f", "g"), atom, (0, 1, 2))
     out.append(("task-args", targs, targs))
-    # Task: keyword arguments (both insertion orders), positional vs keyword
-    tkw = TaskG(("f",) if q else ("f", "comm"), Ref("x"), (0, 1), kwsets=((), ("p",), ("q",), ("p", "q"), ("q", "p")), kwval=atom)
+    tcomm = TaskG(("comm", "f"), atom, (2,) if q else (1, 2))
+    out.append(("task-comm", tcomm, tcomm))
+    # Task: keyword arguments (both insertion orders); positional against keyword
+    tkw = TaskG(("f",), None, (0,), kwsets=((), ("p",), ("p", "q"), ("q", "p")), kwval=atom)
     out.append(("task-kwargs", tkw, tkw))
-    # nesting: one inner node inside Task f / Task g / List
+    tpk = Alt(TaskG(("f",), atom, (1, 2)), TaskG(("f",), Ref("x"), (0, 1), kwsets=(("p",), ("q",)), kwval=atom))
+    out.append(("task-pos-vs-kw", tpk, tpk))
+    # nesting: one inner node inside Task f / inside List
     inner = Alt(
-        Seq(("List", "Tuple", "Set"), rr, (1, 2)),
-        Seq(("List", "Tuple"), lit, (1,)),
+        Seq(("List", "Tuple"), rr, (2,)),
+        Seq(("List", "Tuple", "Set"), Ref("x"), (1,)),
+        Seq(("List",), lit, (1,)),
         DictG(Str("k1"), rr, (1,)),
-        K(("Dict", (("str", "k1"), ("ref", "x"), ("str", "k2"), ("ref", "y")))),
-        K(("Dict", (("str", "k1"), ("ref", "y"), ("str", "k2"), ("ref", "x")))),
-        K(("Dict", (("str", "k2"), ("ref", "y"), ("str", "k1"), ("ref", "x")))),
+        K(("Dict", (k1, x, k2, y))), K(("Dict", (k1, y, k2, x))), K(("Dict", (k2, y, k1, x))),
         TaskG(("g",), rr, (1,)),
-        K(("Task", "f", (("ref", "x"),), ())),
-        K(("Task", "g", (), (("p", ("ref", "x")),))),
+        K(("Task", "f", (x,), ())),
+        K(("Task", "g", (), (("p", x),))),
         DataG(("d",), lit),
-        K(("Alias", "x", "x")), K(("Alias", "y", "y")), K(("Alias", "x", "y")),
+        K(("Alias", "x", "x")), K(("Alias", "x", "y")),
         Raw("rawlist", lit, 1), Raw("rawtuple", lit, 1),
-        atom,
+        Ref("x"), lit,
     )
-
-    class Outer:
-        def gen(self, e, p):
-            o = e.pick(p + "outer", ("f", "g", "List"))
-            i = inner.gen(e, p + "in_")
-            if o == "List":
-                return ("List", (i,))
-            return ("Task", o, (i,), ())
-
-        def weight(self):
-            return 3 * inner.weight()
-
-    nested = Outer()
-    out.append(("nested", nested, nested))
+    for o in ("f", "List") if q else ("f", "g", "List", "Tuple"):
+        og = Wrap(o, inner)
+        out.append((f"nested-{o}", og, og))
+    if not q:
+        out.append(("nested-f-vs-List", Wrap("f", inner), Wrap("List", inner)))
+        out.append(("nested-f-vs-g", Wrap("f", inner), Wrap("g", inner)))
+        out.append(("nested-List-vs-Tuple", Wrap("List", inner), Wrap("Tuple", inner)))
     # fixed re-nestings of x, y
     nst = _nestings()
     out.append(("renest", nst, nst))
     # top-level Alias / DataNode (and a task / list to compare against)
     top = Alt(K(("Alias", "x", "x")), K(("Alias", "x", "y")), K(("Alias", "y", "x")), K(("Alias", "y", "y")),
               DataG(("x", "y"), Alt(lit, Raw("rawlist", lit, 1), Raw("rawtuple", lit, 1), Str("x"), Raw("rawlist", lit, 2))),
-              K(("Task", "f", (("ref", "x"),), ())), K(("List", (("ref", "x"),))), K(("Task", "f", (("str", "x"),), ())))
+              K(("Task", "f", (x,), ())), K(("List", (x,))), K(("Task", "f", (("str", "x"),), ())))
     out.append(("alias-data", top, top))
     if not q:
         seq3 = Seq(("List", "Tuple"), Alt(Lit(1), Ref("x"), Ref("y")), (3,))
         out.append(("seq3", seq3, seq3))
+        d3 = DictG(Alt(Str("k1"), Str("k2"), Lit(1)), Alt(Lit(1), Ref("x"), Ref("y")), (2,))
+        out.append(("dict-mixed-keys", d3, d3))
     return out, vmax
+
+
+def split(gram, k):
+    """partition a grammar into <= k grammars of similar weight (obligations are the unit of parallel work)"""
+    parts = sorted(gram.slices(), key=lambda s_: -s_.weight())
+    groups = [[] for _ in range(min(k, len(parts)))]
+    for s_ in parts:
+        min(groups, key=lambda g_: sum(z.weight() for z in g_)).append(s_)
+    return [g_[0] if len(g_) == 1 else Alt(*g_) for g_ in groups if g_]
 
 
 def obligations(tier):
     fams, vmax = families(tier)
-    return [mk(f"{name}[w={ga.weight()}x{gb.weight()}]", ga, gb, vmax) for name, ga, gb in fams]
+    nsplit = int(os.environ.get("VERIF_C11_SPLIT", "3" if tier == "quick" else "6"))
+    obs = []
+    for name, ga, gb in fams:
+        big = ga.weight() * gb.weight() > 600
+        parts = split(ga, nsplit) if big else [ga]
+        for i, part in enumerate(parts):
+            tag = f"{name}" if len(parts) == 1 else f"{name}/{i + 1}of{len(parts)}"
+            obs.append(mk(f"{tag}[w={part.weight()}x{gb.weight()}]", part, gb, vmax, DEPKEYS[:2] if tier == "quick" else DEPKEYS))
+    return obs
